@@ -23,7 +23,8 @@ PROBES = ['retry-round', 'preloaded', 'announced-by-second-queue',
           'backend:dict', 'backend:disk', 'backend:redis', 'backend:cloud',
           'backend:cloud+mq']
 STATES_MEASURE = 'distinct (backend, per-message attempt-shape sequence)'
-BIAS = {'p_split': 0.15, 'p_slow_store': 0.25, 'L': [1, 2, 2, 3], 'waits': (0, 1, 1, 5, 30, 30, 300),
+BIAS = {'p_split': 0.2, 'p_slow_store': 0.4, 'max_msgs': 4,
+        'L': [1, 2, 2, 3], 'waits': (0, 0, 1, 1, 5, 30, 300),
         'hows': ['enqueue', 'enqueue', 'preload', 'announce'],
         'n_flush': [0, 0, 1, 1, 2], 'p_map': 0.3,
         'whole': ['temp', 'temp', 'temp', 'other', 'none', 'perm'],
